@@ -313,7 +313,9 @@ func runLoop(t *testing.T, spec Spec, tier string, o *out, known map[string]bool
 		if spec.Batch != nil && !deadline.IsZero() && len(pending) > 0 && time.Now().Add(perRun()*time.Duration(len(pending)+1)).After(deadline) {
 			break
 		}
-		if len(pending) >= bsize {
+		// calibration: the first few runs are judged at once, so that the cost of the external
+		// oracle on this machine, under its present load, is known before a whole batch is due
+		if (len(pending) >= bsize) || (spec.Batch != nil && flushedRuns == 0 && len(pending) >= 3 && !deadline.IsZero()) {
 			if !flush() || fails >= maxFails {
 				break
 			}
